@@ -211,6 +211,46 @@ def main():
                 ('whitespace-selectors', '{"a"}', '{"a","b", " a"}', '{"a", "a ", "b", "b "}', '{"x"}', MAPS_OLD, ['{"sub"}', '{"sub","interact"}'])]
     for run_label, MV, AV, BV, CV, MAPS, flagsets in runs:
         run_config(V, rng, tier, run_label, MV, AV, BV, CV, MAPS, flagsets)
+    # ---- larger value alphabets than the model's (12 x 12 and 20 x 9 values: more value pairs than an 8-bit code holds):
+    # the sub-feature rules on every value and value pair of a frame that contains each pair
+    big_items = []
+    for na, nb_ in ((12, 12), (20, 9)) if tier == 'quick' else ((12, 12), (20, 9), (3, 50), (16, 16)):
+        va = [f'u{i}' for i in range(na)]
+        vb = [f'v{i}é' for i in range(nb_)]
+        rows = [[a_, b_, str((i_ + j_) % 2)] for i_, a_ in enumerate(va) for j_, b_ in enumerate(vb)]
+        rows += [rng.choice(rows) for _ in range(17)]
+        rng.shuffle(rows)
+        big_items.append({'columns': ['fa', 'fb', 'label'], 'rows': rows, 'args': {'heuristic': 'MI-numba-randomized', 'label_column': 'label', 'subfeature_mapping': 'fa<->fb;fa->fb'}})
+    bg = PC.pipe_eval([{'op': 'batch_features', 'items': [it_]} for it_ in big_items], modules=['pipe_ops'])
+    for it_, r_ in zip(big_items, bg):
+        key = f'large-alphabet: {len(set(r[0] for r in it_["rows"]))} x {len(set(r[1] for r in it_["rows"]))} values, {len(it_["rows"])} rows, mapping fa<->fb;fa->fb'
+        if r_ is None or 'ok' not in r_ or 'error' in r_['ok'][0]:
+            V.violation('raises:' + key, f'compute_batch_ranking failed: {PC.failure_text(r_) or r_["ok"][0].get("error")}', {'key': key})
+            continue
+        ob = r_['ok'][0]
+        fa = [r[0] for r in it_['rows']]
+        fb = [r[1] for r in it_['rows']]
+        if ob['columns'][:3] != ['fa', 'fb', 'label'] or ob['values']['fa'] != fa or ob['values']['fb'] != fb:
+            V.violation('additive:' + key, 'original columns changed', {'key': key})
+            continue
+        new_ = [ob['values'][c_] for c_ in ob['columns'][3:]]
+        ones = {}
+        for col in new_:
+            idx = frozenset(i_ for i_, v_ in enumerate(col) if v_ == '1')
+            if idx and len(set(col)) <= 2:
+                ones[idx] = True
+        missing_pairs = [(u_, v_) for u_, v_ in sorted(set(zip(fa, fb))) if frozenset(i_ for i_ in range(len(fa)) if fa[i_] == u_ and fb[i_] == v_) not in ones]
+        if missing_pairs:
+            V.violation('rule:SUB2:' + key, f'no constructed column is the indicator of the value pair for {len(missing_pairs)} pairs, e.g. {missing_pairs[:3]}', {'key': key})
+        joined = {}
+        for col in new_:
+            on = frozenset(i_ for i_, v_ in enumerate(col) if 'AND' in v_)
+            if on and all(col[i_] == fa[i_] + 'AND' + fb[i_] for i_ in on) and len({col[i_] for i_ in range(len(col)) if i_ not in on}) <= 1:
+                joined[on] = True
+        missing_vals = [v_ for v_ in sorted(set(fb)) if frozenset(i_ for i_ in range(len(fb)) if fb[i_] == v_) not in joined]
+        if missing_vals:
+            V.violation('rule:SUB1:' + key, f'no constructed column carries the joined value exactly on the rows of selector value(s) {missing_vals[:3]}', {'key': key})
+    V.count(evaluations=len(big_items), nontrivial=len(big_items), traces=len(big_items))
     V.coverage['exhaustive'] = True
     return V.finish()
 
